@@ -1,6 +1,6 @@
 """C07 - linear engines have one cycle of length 2^n - 1 through all non-zero states."""
 from .. import terms as T, alg
-from ..harness import Crate, Anchor, Unsupported, SymbolicLoop
+from ..harness import Crate, Anchor, Unsupported, SymbolicLoop, Diverged, State, Ref, ArrV, flat_leaves
 from ..ref import xoshiro as REF
 from .linear import Gen, RNGCORE, step_matrix
 
@@ -8,7 +8,8 @@ RULE = ("for each linear generator type: the native step, value-numbered on a sy
         "no opaque bit and no constant term (R1); the extracted n x n matrix must have rank n (R2); its minimal polynomial "
         "(Berlekamp-Massey on Krylov sequences of the extracted matrix) must have degree n and be primitive: x^(2^n)=x and "
         "x^((2^n-1)/q)!=1 for every certified prime q | 2^n-1 (R3); the state map of the type's other word method (next_u64 of a 32-bit "
-        "engine, next_u32 of a 64-bit engine), evaluated with everything inlined, must be the matrix T^2 resp. T (R4), so that every "
+        "engine, next_u32 of a 64-bit engine), evaluated with everything inlined, must be the matrix T^2 resp. T (R4), and the state map of fill_bytes on a destination of each "
+        "constant length n in the tier's range must be T^k for the k native steps the word table of C05 prescribes for n (R5), so that every "
         "stepping operation moves along the one cycle")
 
 TRUSTED = ["rustc nightly MIR", "primitive table (vf/prims.py)", "integer arithmetic of CPython",
@@ -47,9 +48,64 @@ def min_poly(rows, n):
     return alg.minimal_polynomial(rows, n, [(u & ((1 << n) - 1), v & ((1 << n) - 1)) for u, v in PROBES])
 
 
+
+FILL_LENS = {"quick": (0, 1, 3, 4, 5, 7, 8, 9, 12, 13, 15, 16, 17, 24), "thorough": tuple(range(0, 41))}
+
+
+def native_steps(native, n):
+    """native steps fill_bytes(n) makes: n/8 next_u64, then one next_u64 (tail 5..7) or one next_u32 (tail 1..4)"""
+    per64 = 2 if native == "next_u32" else 1
+    tail = n % 8
+    return per64 * (n // 8) + (0 if tail == 0 else (per64 if tail > 4 else 1))
+
+
+def check_fill_power(chk, crate, e, ident, ref, tier):
+    """R5: fill_bytes(n) advances the state by a power of the native step"""
+    g = e["g"]
+    key = g.method(RNGCORE, "fill_bytes")
+    chk.body(key)
+    where = crate.body(key)["span"][0]
+    powers = {0: None, 1: e["rows"]}
+    bad = []
+    done = 0
+    for n in FILL_LENS[tier]:
+        k = native_steps(ref["native"], n)
+        try:
+            dest = ArrV(n, 8, None, None, {i: T.sym("dest[%d]" % i, 8) for i in range(n)})
+            ev = crate.evaluator()
+            st = State()
+            doid = st.alloc(dest, "dest")
+            from .linear import sym_self
+            sref, pre, oid = sym_self(ev, st, g.tyid, "s")
+            ev.call_body(st, key, [sref, Ref(doid, (), (0, n), True)])
+            post = flat_leaves(st.objs[oid])
+        except (Unsupported, SymbolicLoop, Diverged) as ex:
+            bad.append("n=%d: not established: %s" % (n, ex))
+            continue
+        rows, consts, bad_atom = step_matrix(pre, post)
+        done += 1
+        if rows is None or any(consts):
+            bad.append("n=%d: state map is not GF(2)-linear in the state" % n)
+            continue
+        hi = max(powers)
+        while hi < k:
+            powers[hi + 1] = alg.matmul(e["rows"], powers[hi])
+            hi += 1
+        if k == 0:
+            okp = all(r == (1 << i) for i, r in enumerate(rows))
+        else:
+            okp = list(rows) == list(powers[k])
+        if not okp:
+            bad.append("n=%d: state map is not T^%d (rank %d of %d)" % (n, k, alg.rank(rows), e["n"]))
+    chk.ob("R5", "%s::fill_bytes|state map is the native step applied as often as the word table prescribes, for %d lengths in %d..=%d" % (
+        ident, len(FILL_LENS[tier]), FILL_LENS[tier][0], FILL_LENS[tier][-1]), not bad, "; ".join(bad[:3]), where=where,
+        sample={"type": ident, "lengths": done} if ident in ("XorShiftRng", "Xoshiro256PlusPlus") else None)
+    return done
+
+
 def run(chk, tier):
     crates = {}
-    cnt = 0
+    cnt = fills = 0
     engines = {}
     for cname, ident, ref in linear_types():
         try:
@@ -113,9 +169,14 @@ def run(chk, tier):
                        sample={"type": ident, "method": other, "power": k} if cnt in (1, 5) else None)
         except (Anchor, Unsupported, SymbolicLoop) as ex:
             chk.ob("R4", "%s::%s|state map" % (ident, other), False, "not established: %s" % ex)
+        try:
+            fills += check_fill_power(chk, crate, e, ident, ref, tier)
+        except Anchor as ex:
+            chk.ob("R5", "%s::fill_bytes|state map" % ident, False, "not established: %s" % ex)
         chk.ob("R3", "%s|characteristic polynomial primitive" % ident, prim, why, where=where,
                sample={"type": ident, "n": n, "rank": rk, "chi_weight": bin(chi).count("1"), "chi_low64": hex(chi & (2**64 - 1)), "verdict": why})
     chk.extra["distinct_engines"] = len(engines)
     chk.floor("R0", "linear generator types", cnt, 15)
     chk.floor("R0", "distinct engines", len(engines), 7)
+    chk.floor("R0", "fill_bytes lengths analysed", fills, 15 * len(FILL_LENS[tier]))
     chk.trusted_base = TRUSTED
